@@ -21,10 +21,6 @@ structure PInv (scopes : List Nat) (c pre : Chain) (st : State) : Prop where
   txs_rec : ∀ h blk, (h, blk) ∈ pre → ∀ tx ∈ blk, touches scopes (wops scopes (allTxs c)) tx = true →
     (tx.id, h) ∈ st.txs
   txs_ids : ∀ p ∈ st.txs, ∃ t ∈ allTxs pre, t.id = p.1
-  /-- no recovered output is leased (`LeaseOutput`) and the store holds no unmined transaction: `UnspentOutputs`, which
-      `recovery()` hands to `Resurrect`, omits such outputs (see `C16_resumed_misses_spend_of_hidden_output`) -/
-  no_lease : st.leased = []
-  no_unmined : st.unmined = []
 
 /-- In-memory part (`RecoveryState`). -/
 structure MInv (W : Nat) (scopes : List Nat) (invalid : BranchId → List Nat) (c pre : Chain) (st : State) : Prop where
@@ -159,7 +155,7 @@ theorem skip_block {W : Nat} {scopes : List Nat} {invalid : BranchId → List Na
   have eT : allTxs c = allTxs p ++ blk ++ allTxs q := by rw [e]; exact allTxs_split p h blk q
   have hw0 := wops_untouched scopes _ blk hu
   constructor
-  · refine ⟨hp.scopes_eq, ?_, ?_, ?_, ?_, hp.no_lease, hp.no_unmined⟩
+  · refine ⟨hp.scopes_eq, ?_, ?_, ?_, ?_⟩
     · intro k hk hs
       rw [allTxs_snoc, paidKeys_append] at hk
       rcases List.mem_append.mp hk with hk | hk
@@ -215,17 +211,17 @@ theorem hit_block {W : Nat} {scopes : List Nat} {invalid : BranchId → List Nat
       k ∈ us := by
     intro k hk hs
     exact s5 k (f3 k hk hs) (by rw [hp.scopes_eq]; exact (mem_branchIds scopes _).mpr hs)
-  obtain ⟨⟨ts, us', r1⟩, r2, r3, r4, r5⟩ := relevantFold_spec hwf h blk (allTxs p) (allTxs q)
+  obtain ⟨⟨ts, us', um, ls, r1⟩, r2, r3, r4, r5⟩ := relevantFold_spec hwf h blk (allTxs p) (allTxs q)
     { st with branches := brs, next := nx, used := us,
               watched := f.outpoints.foldl (fun w op => w.insert op) st.watched }
-    eT hp.scopes_eq hp.credits hp.txs_ids (fun k hk hs => (hknown k hk hs).1) hp.no_lease hp.no_unmined
+    eT hp.scopes_eq hp.credits hp.txs_ids (fun k hk hs => (hknown k hk hs).1)
   rw [f1]
   generalize (blk.filter (touches scopes (wops scopes (allTxs c)))).foldl (fun st tx => addRelevantTx st tx h)
     { st with branches := brs, next := nx, used := us,
               watched := f.outpoints.foldl (fun w op => w.insert op) st.watched } = st3 at r1 r2 r3 r4 r5
   subst r1
   constructor
-  · refine ⟨hp.scopes_eq, ?_, ?_, ?_, ?_, hp.no_lease, hp.no_unmined⟩
+  · refine ⟨hp.scopes_eq, ?_, ?_, ?_, ?_⟩
     · intro k hk hs
       rw [allTxs_snoc, paidKeys_append] at hk
       rcases List.mem_append.mp hk with hk | hk
@@ -331,7 +327,7 @@ theorem expState_inv {W : Nat} {scopes : List Nat} {invalid : BranchId → List 
   unfold expState
   generalize expandAll invalid st = st1 at e1 e2 e3
   subst e1
-  exact ⟨⟨hp.scopes_eq, hp.paid, hp.credits, hp.txs_rec, hp.txs_ids, hp.no_lease, hp.no_unmined⟩,
+  exact ⟨⟨hp.scopes_eq, hp.paid, hp.credits, hp.txs_rec, hp.txs_ids⟩,
     ⟨hm.window_eq, e2, hm.watched_sub, hm.watched_sup⟩, e3⟩
 
 /-- `recoverScopedAddresses` over one batch. -/
@@ -410,12 +406,9 @@ theorem resurrect_inv {W : Nat} {scopes : List Nat} {invalid : BranchId → List
     (e : c = p ++ q) (hp : PInv scopes c p st) (hw : st.window = W) :
     PInv scopes c p (resurrect invalid st) ∧ MInv W scopes invalid c p (resurrect invalid st) := by
   have eT : allTxs c = allTxs p ++ allTxs q := by rw [e, allTxs_append]
-  have hh : ∀ op, hidden st op = false := by
-    intro op; simp [hidden, hp.no_lease, hp.no_unmined]
-  have hwat : (resurrect invalid st).watched = (st.credits.filter (fun c => !c.spent)).map (·.op) := by
-    simp only [resurrect, hh, Bool.not_false, Bool.and_true]
+  have hwat : (resurrect invalid st).watched = (st.credits.filter (fun c => !c.spent)).map (·.op) := rfl
   constructor
-  · exact ⟨hp.scopes_eq, hp.paid, hp.credits, hp.txs_rec, hp.txs_ids, hp.no_lease, hp.no_unmined⟩
+  · exact ⟨hp.scopes_eq, hp.paid, hp.credits, hp.txs_rec, hp.txs_ids⟩
   · refine ⟨hw, ?_, ?_, ?_⟩
     · intro br hbr
       have hmem : br ∈ branchIds st.scopes := by rw [hp.scopes_eq]; exact (mem_branchIds scopes br).mpr hbr
@@ -482,7 +475,7 @@ theorem recoverChain_spec {W : Nat} {scopes : List Nat} {invalid : BranchId → 
       exact ih _ _ _ (n + 1) e2 (by simp; omega) hl2 hstep.1 hstep.2
 
 theorem init_inv (W : Nat) (scopes : List Nat) (c : Chain) : PInv scopes c [] (State.init W scopes) := by
-  refine ⟨rfl, ?_, rfl, ?_, ?_, rfl, rfl⟩
+  refine ⟨rfl, ?_, rfl, ?_, ?_⟩
   · intro k h; simp [allTxs, paidKeys] at h
   · intro h blk hm; cases hm
   · intro x hx; cases hx
@@ -513,9 +506,7 @@ theorem balance_fold (txs : List Tx) : ∀ (l : List (OutPoint × Nat)) (acc : N
       exact ih acc
 
 theorem balance_spec (scopes : List Nat) (txs : List Tx) (st : State) (h : st.credits = specCredits scopes txs)
-    (hl : st.leased = []) (hu : st.unmined = []) : balance st = ledgerBalance scopes txs := by
-  have hh : ∀ op, hidden st op = false := by
-    intro op; simp [hidden, hl, hu]
+    (hh : ∀ op, hidden st op = false) : balance st = ledgerBalance scopes txs := by
   unfold balance spendable ledgerBalance
   simp only [hh, Bool.not_false, Bool.and_true]
   rw [h, specCredits, balance_fold]
@@ -609,7 +600,7 @@ theorem checkLA_sound (W : Nat) (scopes : List Nat) (c : Chain) (h : checkLA W s
 /-- What a finished recovery over `p` left in the database is a valid starting point for the chain `p ++ rest`. -/
 theorem pinv_extend {scopes : List Nat} {invalid : BranchId → List Nat} {p rest : Chain} {st : State}
     (hwf : ChainWF scopes invalid (p ++ rest)) (hp : PInv scopes p p st) : PInv scopes (p ++ rest) p st := by
-  refine ⟨hp.scopes_eq, hp.paid, hp.credits, ?_, hp.txs_ids, hp.no_lease, hp.no_unmined⟩
+  refine ⟨hp.scopes_eq, hp.paid, hp.credits, ?_, hp.txs_ids⟩
   intro h blk hmem tx htx ht
   apply hp.txs_rec h blk hmem tx htx
   simp only [touches, Bool.or_eq_true, List.any_eq_true, List.contains_iff_mem] at ht ⊢
@@ -629,7 +620,7 @@ theorem pinv_extend {scopes : List Nat} {invalid : BranchId → List Nat} {p res
 
 theorem pinv_window {scopes : List Nat} {c p : Chain} {st : State} (W : Nat) (hp : PInv scopes c p st) :
     PInv scopes c p { st with window := W } :=
-  ⟨hp.scopes_eq, hp.paid, hp.credits, hp.txs_rec, hp.txs_ids, hp.no_lease, hp.no_unmined⟩
+  ⟨hp.scopes_eq, hp.paid, hp.credits, hp.txs_rec, hp.txs_ids⟩
 
 theorem checkLAFrom_sound (W : Nat) (scopes : List Nat) (n : Nat) (c : Chain) (h : checkLAFrom W scopes n c = true) :
     LookAheadFrom W scopes n c := by
@@ -641,5 +632,90 @@ theorem checkLAFrom_sound (W : Nat) (scopes : List Nat) (n : Nat) (c : Chain) (h
   · rcases h' k hk with h'' | h''
     · rw [hs] at h''; cases h''
     · exact h''
+
+/-! ## PART 15 — recovery itself leases nothing and stores no unmined transaction -/
+
+def Quiet (st : State) : Prop := st.leased = [] ∧ st.unmined = []
+
+theorem Quiet.hidden {st : State} (h : Quiet st) (op : OutPoint) : hidden st op = false := by
+  simp [Recovery.hidden, h.1, h.2]
+
+theorem quiet_expandAll (invalid : BranchId → List Nat) (st : State) (h : Quiet st) : Quiet (expandAll invalid st) := by
+  unfold expandAll
+  generalize branchIds st.scopes = ids
+  induction ids generalizing st with
+  | nil => exact h
+  | cons k ids ih => exact ih _ h
+
+theorem quiet_extendFound (st : State) (k : BranchId) (idxs : List Nat) (h : Quiet st) :
+    Quiet (extendFound st k idxs) := by
+  unfold extendFound
+  split
+  · exact h
+  · exact h
+
+theorem quiet_addRelevantTx (st : State) (tx : Tx) (height : Nat) (h : Quiet st) :
+    Quiet (addRelevantTx st tx height) := by
+  unfold addRelevantTx
+  split
+  · exact h
+  · simp only [Quiet, h.1, h.2, List.filter_nil, and_self]
+
+theorem quiet_foldl {α : Type} (f : State → α → State) (hf : ∀ st a, Quiet st → Quiet (f st a)) :
+    ∀ (l : List α) (st : State), Quiet st → Quiet (l.foldl f st) := by
+  intro l
+  induction l with
+  | nil => intro st h; exact h
+  | cons a l ih => intro st h; exact ih _ (hf st a h)
+
+theorem quiet_applyFound (st : State) (height : Nat) (f : Found) (h : Quiet st) : Quiet (applyFound st height f) := by
+  unfold applyFound
+  apply quiet_foldl _ (fun st tx hq => quiet_addRelevantTx st tx height hq)
+  have h1 := quiet_foldl (fun st k =>
+      extendFound st k ((f.keys.filter (fun key => key.scope == k.1 && key.internal == k.2)).map (·.index)))
+    (fun st k hq => quiet_extendFound st k _ hq) (branchIds st.scopes) st h
+  exact h1
+
+theorem quiet_recoverScoped (invalid : BranchId → List Nat) : ∀ (fuel : Nat) (st : State) (batch : Chain),
+    Quiet st → Quiet (recoverScoped invalid fuel st batch) := by
+  intro fuel
+  induction fuel with
+  | zero => intro st batch h; exact h
+  | succ fuel ih =>
+    intro st batch h
+    by_cases hbe : batch.isEmpty = true
+    · rw [recoverScoped, if_pos hbe]; exact h
+    · rw [recoverScoped_succ invalid fuel st batch hbe]
+      have hx : Quiet (expState invalid st) := quiet_expandAll invalid st h
+      cases filterBlocks (expState invalid st) batch 0 with
+      | none => exact hx
+      | some r =>
+        obtain ⟨i, hh, f⟩ := r
+        simp only []
+        split
+        · exact quiet_applyFound _ _ _ hx
+        · exact ih _ _ (quiet_applyFound _ _ _ hx)
+
+theorem quiet_recoverChain (invalid : BranchId → List Nat) (batchSize : Nat) (cuts : Nat → Bool) :
+    ∀ (fuel : Nat) (st : State) (blocks : Chain) (n : Nat), Quiet st →
+    Quiet (recoverChain invalid batchSize fuel st blocks cuts n) := by
+  intro fuel
+  induction fuel with
+  | zero => intro st blocks n h; exact h
+  | succ fuel ih =>
+    intro st blocks n h
+    rw [recoverChain]
+    split
+    · exact h
+    · simp only []
+      apply ih
+      have h1 : Quiet (recoverBatch invalid st (blocks.take (max batchSize 1))) := quiet_recoverScoped invalid _ _ _ h
+      split
+      · exact h1
+      · exact h1
+
+theorem quiet_recover (invalid : BranchId → List Nat) (W batchSize : Nat) (scopes : List Nat) (c : Chain)
+    (cuts : Nat → Bool) : Quiet (recover invalid W batchSize scopes c cuts) :=
+  quiet_recoverChain invalid batchSize cuts _ _ _ _ ⟨rfl, rfl⟩
 
 end Recovery
